@@ -338,3 +338,82 @@ M("C11", "encoder-closing-delimiter-kept", F, ENC_ESCAPER, "        value = repr
 M("C11", "encoder-pin-not-a-quote", F, ENC_ESCAPER, "        value = repr(b'x' + value)[3:-1]\n", "C11.R6")
 M("C11", "encoder-per-type-suffix-pin-short-slice", F, ENC_BODY, ENC_PER_TYPE.replace("[2:-2]", "[2:-1]"), "C11.R6")
 M("C11", "encoder-per-type-bytes-quote-unescaped", F, ENC_BODY, ENC_PER_TYPE.replace("[2:-2].replace('\"', '\\\\\"')", "[2:-2]"), "C11.R6")
+
+# ------------------------------------------------------------------------------------------------ wave 4
+# grammar: a block body named through a unit production (two equal rules merged, `?x: y` / `_x: y`) - keyword paths and the
+# tree alternatives are those of the target (lemma L3)
+G = "c2profile.lark"
+POST_RULE = ('http_post_options: "set" "uri" string ";"           -> uri\n'
+             '    | "set" "verb" string ";"                       -> verb\n'
+             '    | "client" "{" http_get_client_options* "}"     -> client\n'
+             '    | "server" "{" http_options* "}"                -> server\n')
+POST_USE = '    | "http-post" variant? "{" http_post_options* "}"                   -> http_post\n'
+T("C11", "twin-grammar-underscore-unit-rule", G, "", "", edits=[
+    (G, POST_RULE, '_http_post_body: http_get_options\n'),
+    (G, POST_USE, '    | "http-post" variant? "{" _http_post_body* "}"                     -> http_post\n')])
+T("C11", "twin-grammar-list-body-through-unit-rule", G, "", "", edits=[
+    (G, 'http_options: "header" string string ";"            -> header\n    | "parameter" string string ";"                 -> parameter\n    | "output" "{" data_transform* "}"              -> output\n',
+     'http_options: "header" string string ";"            -> header\n    | "parameter" string string ";"                 -> parameter\n    | "output" "{" transform_list* "}"              -> output\n\n?transform_list: data_transform\n')])
+# merged with the wrong rule: an http-post client block then has no `id` / a plain `output` body only
+M("C11", "grammar-post-merged-with-stager-rule", G, POST_RULE, '?http_post_options: http_stager_options\n', "C11.R1")
+
+# builder classes that bind their flag statements by a decorator / a module-level loop (names are constants of the code)
+EXEC_FLAGS = ('    createthread = ConfigBlock._enable\n'
+              '    createremotethread = ConfigBlock._enable\n'
+              '    ntqueueapcthread = ConfigBlock._enable\n'
+              '    ntqueueapcthread_s = ConfigBlock._enable\n'
+              '    rtlcreateuserthread = ConfigBlock._enable\n'
+              '    setthreadcontext = ConfigBlock._enable\n')
+EXEC_HEAD = 'class ExecuteOptionsBlock(ConfigBlock):\n'
+GATE_HEAD = 'class BeaconGateBlock(ConfigBlock):\n'
+EXEC_NAMES = '("createthread", "createremotethread", "ntqueueapcthread", "ntqueueapcthread_s", "rtlcreateuserthread", "setthreadcontext")'
+PLAIN_DECORATOR = ('_EXEC_FLAGS = ' + EXEC_NAMES + '\n\n\n'
+                   'def _exec_flags(klass):\n    for flag in _EXEC_FLAGS:\n        setattr(klass, flag, ConfigBlock._enable)\n    klass.setthreadcontext = ConfigBlock._enable\n    return klass\n\n\n')
+T("C11", "twin-flags-plain-decorator-module-tuple", F, "", "", edits=[
+    (F, EXEC_FLAGS, ""), (F, EXEC_HEAD, PLAIN_DECORATOR + "@_exec_flags\n" + EXEC_HEAD)])
+T("C11", "twin-flags-module-level-loop", F, "", "", edits=[
+    (F, EXEC_FLAGS, ""), (F, GATE_HEAD, 'for _flag in ' + EXEC_NAMES + ':\n    setattr(ExecuteOptionsBlock, _flag, ConfigBlock._enable)\n\n\n' + GATE_HEAD)])
+FACTORY = ('def _statements(helper, *names):\n    def bind(klass):\n        for name in names:\n            setattr(klass, name, helper)\n        return klass\n\n    return bind\n\n\n')
+T("C11", "twin-flags-factory-with-helper-argument", F, "", "", edits=[
+    (F, EXEC_FLAGS, ""), (F, EXEC_HEAD, FACTORY + "@_statements(ConfigBlock._enable, *" + EXEC_NAMES + ")\n" + EXEC_HEAD)])
+M("C11", "flags-factory-name-missing", F, "", "", "C11.R3", edits=[
+    (F, EXEC_FLAGS, ""), (F, EXEC_HEAD, FACTORY + "@_statements(ConfigBlock._enable, " + EXEC_NAMES.replace('"ntqueueapcthread_s", ', "")[1:-1] + ")\n" + EXEC_HEAD)])
+M("C11", "flags-factory-wrong-helper", F, "", "", "C11.R3", edits=[
+    (F, EXEC_FLAGS, ""), (F, EXEC_HEAD, FACTORY + "@_statements(ConfigBlock.set_option, " + EXEC_NAMES[1:-1] + ")\n" + EXEC_HEAD)])
+M("C11", "flags-module-level-loop-misspelt", F, "", "", "C11.R3", edits=[
+    (F, EXEC_FLAGS, ""), (F, GATE_HEAD, 'for _flag in ' + EXEC_NAMES.replace("ntqueueapcthread_s", "ntqueueapcthread-s") + ':\n    setattr(ExecuteOptionsBlock, _flag, ConfigBlock._enable)\n\n\n' + GATE_HEAD)])
+
+# R7 (imported C12.R2/R3): the decoder behind the list-valued entries
+U_ESCAPE = '                    _ = it.next(2)\n                    hexstr = "".join(it.next(2))\n'
+T("C11", "twin-u-escape-skip-as-statement", F, U_ESCAPE, '                    it.next(2)\n                    hexstr = "".join(it.next(2))\n')
+M("C11", "u-escape-high-pair-taken", F, U_ESCAPE, '                    hexstr = "".join(it.next(2))\n                    it.next(2)\n', "C11.R7")
+M("C11", "u-escape-whole-code-unit-plus-mask-too-wide", F, U_ESCAPE + '                    buffer.append(int(hexstr, 16))\n',
+  '                    hexstr = "".join(it.next(4))\n                    buffer.append(int(hexstr, 16) & 0xFFF)\n', "C11.R7")
+M("C11", "iterator-mask-too-wide", F, "[chr(ord(c) & 0xFF) for c in string]", "[chr(ord(c) & 0xFFFF) for c in string]", "C11.R7")
+
+# R8: a block path is composed from its components and never taken apart at the separator
+CLOSE = ('                elif item == "}":\n'
+         '                    x = stack.pop()\n'
+         '                    if isinstance(x, Token):\n'
+         '                        # pop variant token\n'
+         '                        stack.pop()\n')
+KEY2 = '                    key = ".".join(stack + line)\n'
+T("C11", "twin-key-concatenated", F, KEY2,
+  '                    key = ".".join(stack) + "." + ".".join(line) if stack and line else ".".join(stack or line)\n')
+T("C11", "twin-key-fstring-separator-constant", F, "", "", edits=[
+    (F, CLASS_HEAD, '_SEP = "."\n\n\n' + CLASS_HEAD),
+    (F, '                    key = ".".join(stack)\n', '                    key = _SEP.join(stack)\n'),
+    (F, KEY2, '                    head, tail = _SEP.join(stack), _SEP.join(line)\n                    key = f"{head}{_SEP}{tail}" if head and tail else head or tail\n')])
+# string-typed state that is cut by position is fine (the length of the component is known), cutting at the separator is not
+T("C11", "twin-close-pops-then-rejoins", F, CLOSE, CLOSE + '                    logger.debug(".".join(stack))\n')
+M("C11", "close-cuts-joined-path-rsplit", F, CLOSE,
+  '                elif item == "}":\n'
+  '                    path = ".".join(stack)\n'
+  '                    keep = path.rsplit(".", 2 if isinstance(stack[-1], Token) else 1)[0]\n'
+  '                    stack = keep.split(".") if "." in path else []\n', "C11.R8")
+M("C11", "open-flattens-joined-path-split", F, '                    stack.extend(line)\n',
+  '                    stack = ".".join(stack + line).split(".")\n', "C11.R8")
+M("C11", "close-cuts-at-rfind", F, "", "", "C11.R8", edits=[
+    (F, '        stack = []\n        list_props = [\n', '        stack = []\n        where = ""\n        list_props = [\n'),
+    (F, '                    stack.extend(line)\n', '                    stack.extend(line)\n                    where = ".".join(stack)\n'),
+    (F, CLOSE, '                elif item == "}":\n                    where = where[: max(where.rfind("."), 0)]\n                    stack = where.split(".") if where else []\n')])
